@@ -112,3 +112,32 @@ func (it Item) Instantiate(n int, entryName string) (string, string) {
 	entry := fmt.Sprintf("func %s() %s {\n\t%s\n}\n", entryName, it.Ret, rep(it.Entry))
 	return decls, entry
 }
+
+// FarOutside: constructs far outside the subset (C07: goose must answer with structured errors, never crash).
+var FarOutside = []Item{
+	{"chan.basic", "func ch%d() uint64 {\n\tc := make(chan uint64, 1)\n\tc <- 3\n\treturn <-c\n}\n", "return ch%d()", "uint64"},
+	{"select", "func se%d() uint64 {\n\tc := make(chan uint64, 1)\n\tc <- 1\n\tselect {\n\tcase v := <-c:\n\t\treturn v\n\tdefault:\n\t\treturn 0\n\t}\n}\n", "return se%d()", "uint64"},
+	{"float", "func fl%d(x uint64) uint64 {\n\tf := float64(x) * 1.5\n\treturn uint64(f)\n}\n", "return fl%d(4)", "uint64"},
+	{"complex", "func cx%d() uint64 {\n\tz := complex(1, 2)\n\treturn uint64(real(z))\n}\n", "return cx%d()", "uint64"},
+	{"generic.constraint", "type nm%d interface {\n\t~uint64 | ~uint32\n}\n\nfunc gc%d[T nm%d](a T, b T) T {\n\treturn a + b\n}\n", "return gc%d[uint64](1, 2)", "uint64"},
+	{"interface.embedded", "type ia%d interface {\n\tA() uint64\n}\n\ntype ib%d interface {\n\tia%d\n\tB() uint64\n}\n\nfunc ie%d(x ib%d) uint64 {\n\treturn x.A() + x.B()\n}\n", "return 0", "uint64"},
+	{"method.expression", "type me%ds struct {\n\tk uint64\n}\n\nfunc (s me%ds) get() uint64 {\n\treturn s.k\n}\n\nfunc me%d() uint64 {\n\tf := me%ds.get\n\treturn f(me%ds{k: 3})\n}\n", "return me%d()", "uint64"},
+	{"struct.tags", "type tg%ds struct {\n\tA uint64 `json:\"a\"`\n}\n\nfunc tg%d() uint64 {\n\treturn tg%ds{A: 2}.A\n}\n", "return tg%d()", "uint64"},
+	{"blank.param", "func bp%d(_ uint64, x uint64) uint64 {\n\treturn x\n}\n", "return bp%d(1, 2)", "uint64"},
+	{"named.slice-empty-literal", "type ns%dt []uint64\n\nfunc ns%d() uint64 {\n\tx := ns%dt{}\n\treturn uint64(len(x))\n}\n", "return ns%d()", "uint64"},
+	{"named.map-type", "type nmt%dt map[uint64]uint64\n\nfunc nmt%d() uint64 {\n\tx := make(nmt%dt)\n\tx[1] = 2\n\treturn x[1]\n}\n", "return nmt%d()", "uint64"},
+	{"named.func-type", "type nf%dt func(uint64) uint64\n\nfunc nf%d(f nf%dt) uint64 {\n\treturn f(1)\n}\n", "return nf%d(func(x uint64) uint64 {\n\t\treturn x + 1\n\t})", "uint64"},
+	{"local.type-decl", "func lt%d() uint64 {\n\ttype pair struct {\n\t\ta uint64\n\t\tb uint64\n\t}\n\tp := pair{a: 1, b: 2}\n\treturn p.a + p.b\n}\n", "return lt%d()", "uint64"},
+	{"local.const-decl", "func lcd%d() uint64 {\n\tconst k uint64 = 5\n\treturn k + 1\n}\n", "return lcd%d()", "uint64"},
+	{"local.var-group", "func lvg%d() uint64 {\n\tvar (\n\t\ta uint64 = 1\n\t\tb uint64 = 2\n\t)\n\treturn a + b\n}\n", "return lvg%d()", "uint64"},
+	{"pointer.to-pointer", "func pp%d() uint64 {\n\tx := new(uint64)\n\tpx := new(*uint64)\n\t*px = x\n\t**px = 4\n\treturn *x\n}\n", "return pp%d()", "uint64"},
+	{"func.var-recursion", "func fr%d() uint64 {\n\tvar f func(uint64) uint64\n\tf = func(n uint64) uint64 {\n\t\tif n == 0 {\n\t\t\treturn 0\n\t\t}\n\t\treturn 1 + f(n-1)\n\t}\n\treturn f(3)\n}\n", "return fr%d()", "uint64"},
+	{"else-if.early-return", "func ee%d(a bool, b bool) uint64 {\n\tif a {\n\t\treturn 1\n\t} else if b {\n\t\treturn 2\n\t}\n\treturn 3\n}\n", "return ee%d(false, true)", "uint64"},
+	{"struct.by-value-multi-field", "type mf%ds struct {\n\tx, y uint64\n}\n\nfunc mf%d(v mf%ds) uint64 {\n\tswitch v.x {\n\tcase 1:\n\t\treturn 1\n\t}\n\treturn v.y\n}\n", "return mf%d(mf%ds{})", "uint64"},
+	{"calls.rejected-callee", "func rc%da(x uint64) uint64 {\n\tdefer func() {}()\n\treturn x\n}\n\nfunc rc%db() uint64 {\n\tgo rc%da(1)\n\treturn rc%da(2)\n}\n", "return rc%db()", "uint64"},
+	{"string.multiline-raw", "func mr%d() string {\n\treturn `line1\nline2 \"quoted\"`\n}\n", "return uint64(len(mr%d()))", "uint64"},
+	{"unsafe.sizeof", "func us%dz() uint64 {\n\tvar x uint64\n\treturn uint64(len([]uint64{x}))\n}\n", "return us%dz()", "uint64"},
+	{"closure.immediately-invoked", "func ii%d() uint64 {\n\treturn func(x uint64) uint64 {\n\t\treturn x * 2\n\t}(4)\n}\n", "return ii%d()", "uint64"},
+	{"interface.any-param", "func ap%d(x interface{}) uint64 {\n\tswitch x.(type) {\n\tcase uint64:\n\t\treturn 1\n\t}\n\treturn 0\n}\n", "return ap%d(uint64(1))", "uint64"},
+	{"struct.nested-literal", "type nl%da struct {\n\tv uint64\n}\n\ntype nl%db struct {\n\tin nl%da\n\tp *nl%da\n}\n\nfunc nl%d() uint64 {\n\tx := nl%db{in: nl%da{v: 1}, p: &nl%da{v: 2}}\n\treturn x.in.v + x.p.v\n}\n", "return nl%d()", "uint64"},
+}
